@@ -77,3 +77,34 @@ Theorem C04_expression_is_not_a_single_reference : forall name t, ncname_plain n
 Proof. exact is_reference_rejects_continuation. Qed.
 Print Assumptions C04_expression_is_not_a_single_reference.
 
+(* ---- the type cell (Model/TypeCell.v): the three anchored patterns that tell section openers, closers and selects from questions ---- *)
+Require Import PX.Base.PyStr PX.Model.TypeCell PX.Proofs.TypeCell.
+(* whatever a pattern returns accounts for every character of the cell: nothing of the cell is dropped or invented *)
+Theorem C04_select_cell_accounted_for : forall sel t cmd lst other, parse_select sel t = Some (TSelect cmd lst other) ->
+  In cmd sel /\ lst <> [] /\ forallb nonspace lst = true /\
+  exists phrase tail, tail_ok tail /\ (other = true -> In phrase OR_OTHER) /\
+    t = cmd ++ [32%N] ++ lst ++ (if other then [32%N] ++ phrase else []) ++ tail.
+Proof. exact select_sound. Qed.
+Print Assumptions C04_select_cell_accounted_for.
+Theorem C04_begin_cell_accounted_for : forall ctls t ctl lst, parse_begin ctls t = Some (TBegin ctl lst) ->
+  In ctl ctls /\ exists c tail, (py_space c = true \/ c = 95%N) /\ tail_ok tail /\
+    match lst with
+    | None => t = [98;101;103;105;110]%N ++ [c] ++ ctl ++ tail
+    | Some l => l <> [] /\ forallb nonspace l = true /\
+                (t = [98;101;103;105;110]%N ++ [c] ++ ctl ++ [32%N] ++ l ++ tail \/ t = [98;101;103;105;110]%N ++ [c] ++ ctl ++ [32%N] ++ s_over ++ l ++ tail)
+    end.
+Proof. exact begin_sound. Qed.
+Print Assumptions C04_begin_cell_accounted_for.
+Theorem C04_end_cell_accounted_for : forall ctls t ctl, parse_end ctls t = Some (TEnd ctl) ->
+  In ctl ctls /\ exists c tail, (py_space c = true \/ c = 95%N) /\ tail_ok tail /\ t = [101;110;100]%N ++ [c] ++ ctl ++ tail.
+Proof. exact end_sound. Qed.
+Print Assumptions C04_end_cell_accounted_for.
+(* every control word of the regenerated table, after begin/end and a space or an underscore, is recognised as itself; every select command
+   of the regenerated table is recognised as itself with a list name, with and without each or_other phrase *)
+Theorem C04_documented_openers_recognised : forall a sep, In a controls -> sep = 32%N \/ sep = 95%N -> opener_ok sep a = true.
+Proof. exact documented_openers_recognised. Qed.
+Print Assumptions C04_documented_openers_recognised.
+Theorem C04_documented_selects_recognised : forall a, In a selects -> select_ok a = true.
+Proof. exact documented_selects_recognised. Qed.
+Print Assumptions C04_documented_selects_recognised.
+
